@@ -124,7 +124,7 @@ Inductive op :=
 | OObjSize (h o : N)
 | OGetAttr (h o : N) (q : list (N * option N))      (* type, buffer: None = NULL pointer, Some n = n bytes *)
 | OSetAttr (h o : N) (tm : template)
-| OFindInit (h : N) (tm : template)
+| OFindInit (h : N) (tm : template) (prio : list bytes)   (* prio: registration-order oracle, DESIGN.md 2.4 *)
 | OFind (h : N) (mx : N)
 | OFindFinal (h : N)
 | OUseInit (kind : N) (h : N) (key : N).
@@ -479,6 +479,24 @@ Definition candidates (s : state) (k : N) : list (N * bool * obj) :=    (* oid, 
   (match alookup k (st_tokens s) with Some t => map (fun p => (fst p, true, snd p)) (t_objs t) | None => [] end)
   ++ map (fun p => (fst p, false, so_obj (snd p))) (filter (fun p => so_tok (snd p) =? k) (st_sobjs s)).
 
+(* registration order of unregistered candidates: the implementation iterates a pointer-ordered
+   std::set, so the order in which several fresh objects get their handle numbers in one
+   C_FindObjectsInit is not determined by the API history.  It is an ORACLE argument of the operation
+   (a priority list of labels, observed on the real run); theorems hold for every oracle. *)
+Fixpoint prio_index (l : bytes) (prio : list bytes) (n : nat) : nat :=
+  match prio with
+  | [] => n
+  | p :: r => if bytes_eqb p l then O else S (prio_index l r n)
+  end.
+Fixpoint insert_cand (prio : list bytes) (c : N * bool * obj) (l : list (N * bool * obj)) : list (N * bool * obj) :=
+  match l with
+  | [] => [c]
+  | d :: r => if Nat.ltb (prio_index (label_of (snd c)) prio (length prio)) (prio_index (label_of (snd d)) prio (length prio))
+              then c :: l else d :: insert_cand prio c r
+  end.
+Definition order_cands (prio : list bytes) (l : list (N * bool * obj)) : list (N * bool * obj) :=
+  fold_right (insert_cand prio) [] l.
+
 Fixpoint find_loop (tc : tctx) (public : bool) (k hs : N) (tm : template) (cands : list (N * bool * obj))
          (s : state) (acc : list N) : option (state * list N) :=
   match cands with
@@ -791,7 +809,7 @@ Definition step (s : state) (o : op) : state * res :=
                         (s3, RHandle hh)
             end
         end
-    | OFindInit h tm =>
+    | OFindInit h tm prio =>
         match get_session s h with
         | None => (s, RRv CKR_SESSION_HANDLE_INVALID)
         | Some x =>
@@ -801,7 +819,7 @@ Definition step (s : state) (o : op) : state * res :=
               let st := sess_state s x in
               let public := negb ((st =? CKS_RO_USER_FUNCTIONS) || (st =? CKS_RW_USER_FUNCTIONS)) in
               let k := s_tok x in
-              match find_loop (tctx_of s k) public k h tm (candidates s k) s [] with
+              match find_loop (tctx_of s k) public k h tm (order_cands prio (candidates s k)) s [] with
               | None => (s, RUnmodelled)   (* undecryptable attribute: operation type stays set in the code; outside the fragment *)
               | Some (s1, hs) => (upd_session s1 h (fun x => set_s_op x SESSION_OP_FIND hs), RRv CKR_OK)
               end
